@@ -141,7 +141,9 @@ func ruleNumeric(p *Prog, r *Report) {
 	for _, e := range p.Ecos {
 		ef := ecoFieldInfo(p, e)
 		if ef.main == nil || len(ef.leadG) == 0 {
-			r.Note("%s: no capture-group fed numeric components (tokenising / scanning parser): numeric order of components not decided by R-CHAIN", e.Name)
+			if !ruleNumericSeq(p, r, e, ef) {
+				r.Note("%s: no capture-group fed numeric components (tokenising / scanning parser): numeric order is the subject of R-NATCMP / R-SEGNUM or of the rules taken over from C10-C14, not of R-CHAIN on fields", e.Name)
+			}
 			continue
 		}
 		c := newAECtx(p)
@@ -229,6 +231,41 @@ func ruleNumeric(p *Prog, r *Report) {
 	}
 	r.Floor("R-NUMPARSE", 35)
 	r.Floor("R-CHAIN", 60)
+}
+
+// ruleNumericSeq: an ecosystem whose constructor splits the text itself (no capture groups) and keeps
+// the components as a []int field: the field must be fed by numeric parsing of the pieces, and Compare
+// must order two versions by the first position at which the elements differ, smaller element first.
+func ruleNumericSeq(p *Prog, r *Report, e *Eco, ef *ecoFields) bool {
+	found := false
+	for i := 0; ef.st != nil && i < ef.st.NumFields(); i++ {
+		f := ef.st.Field(i)
+		if !isSliceOfInt(f.Type()) {
+			continue
+		}
+		found = true
+		fp := ef.prov[i]
+		key := fmt.Sprintf("%s: component %s parsed as a number", e.Name, f.Name())
+		if !numericVia(fp) || !fp.via["elem"] {
+			r.Bad("R-NUMPARSE", key, p.FnPos(e.NewVer), "the elements of the numeric component list are not produced by strconv/big parsing of the pieces of the text")
+			continue
+		}
+		r.Ok("R-NUMPARSE", key, p.FnPos(e.NewVer), "[]int field whose elements are fed by numeric parsing of the pieces the constructor splits the text into")
+		c := newAECtx(p)
+		c.stageMode = false
+		seq := "." + f.Name()
+		res := c.queryElem(e.Compare, seq)
+		k2 := fmt.Sprintf("%s: elements of %s order numerically", e.Name, seq)
+		switch {
+		case res.oof != "":
+			r.Und("R-CHAIN", k2, p.FnPos(e.Compare), res.oof)
+		case res.ok:
+			r.Ok("R-CHAIN", k2, p.FnPos(e.Compare), fmt.Sprintf("at a position where both are present a smaller element gives -1 (%d abstract worlds)", res.leaves))
+		default:
+			r.Bad("R-CHAIN", k2, p.FnPos(e.Compare), "a smaller element does not give -1 at its position: "+res.detail)
+		}
+	}
+	return found
 }
 
 func isSliceOfInt(t types.Type) bool {
